@@ -8,9 +8,13 @@ import (
 	"encoding"
 	"encoding/binary"
 	"errors"
+	"fmt"
 	"hash"
+	"io"
 	"sort"
+	"sync"
 	"testing"
+	"time"
 
 	_ "golang.org/x/crypto/blake2b"
 )
@@ -164,8 +168,47 @@ func nLeaves(n int) []encoding.BinaryMarshaler {
 	return ls
 }
 
+// decoyLeaf: a leaf that ALSO has the other ways Go types offer to turn themselves into bytes or text.  The tree is over
+// the MarshalBinary form (C15: "depends only on the marshaled leaves"); each decoy yields something else, and the ones
+// that consume (WriteTo, Read) would change the leaf.
+type decoyLeaf struct {
+	inner *leaf
+	used  *int
+}
+
+func (d decoyLeaf) MarshalBinary() ([]byte, error) { return d.inner.MarshalBinary() }
+
+func (d decoyLeaf) touch() { *d.used++ }
+func (d decoyLeaf) WriteTo(w io.Writer) (int64, error) {
+	d.touch()
+	n, err := w.Write(append([]byte{0xfe, byte(len(d.inner.data))}, d.inner.data...))
+	return int64(n), err
+}
+func (d decoyLeaf) Read(p []byte) (int, error)      { d.touch(); return copy(p, "decoy"), io.EOF }
+func (d decoyLeaf) String() string                  { d.touch(); return "decoy-string" }
+func (d decoyLeaf) Bytes() []byte                   { d.touch(); return []byte("decoy-bytes") }
+func (d decoyLeaf) MarshalText() ([]byte, error)    { d.touch(); return []byte("decoy-text"), nil }
+func (d decoyLeaf) MarshalJSON() ([]byte, error)    { d.touch(); return []byte(`"decoy-json"`), nil }
+func (d decoyLeaf) GobEncode() ([]byte, error)      { d.touch(); return []byte("decoy-gob"), nil }
+func (d decoyLeaf) AppendBinary(b []byte) ([]byte, error) { d.touch(); return append(b, "decoy-append"...), nil }
+func (d decoyLeaf) Sum(b []byte) []byte             { d.touch(); return append(b, "decoy-sum"...) }
+func (d decoyLeaf) Len() int                        { d.touch(); return 1 }
+
+var decoyUsed int
+
+func decoys(ls []encoding.BinaryMarshaler) []encoding.BinaryMarshaler {
+	out := make([]encoding.BinaryMarshaler, len(ls))
+	for i, l := range ls {
+		out[i] = decoyLeaf{l.(*leaf), &decoyUsed}
+	}
+	return out
+}
+
 func leavesIntact(ls []encoding.BinaryMarshaler, n int) bool {
 	for i, l := range ls {
+		if dl, ok := l.(decoyLeaf); ok {
+			l = dl.inner
+		}
 		d := l.(*leaf).data
 		if len(d) != 4 || d[0] != byte(i) || d[1] != byte(i>>8) || d[2] != byte(i>>16) || d[3] != byte(n) {
 			return false
@@ -288,11 +331,68 @@ func vRun(op string, in M) M {
 		ls := nLeaves(n)
 		var root, bu []byte
 		var err error
+		if in["decoy"] == true {
+			ls = decoys(ls)
+			decoyUsed = 0
+		}
 		p := vCatch(func() {
 			root, err = sharedHasher(h).Hash(ls)
 			bu = bottomUp(h, nLeaves(n))
+			if r2, _ := sharedHasher(h).Hash(ls); !bytes.Equal(r2, root) {
+				panic("verif: hashing the same leaves again gives another root")
+			}
+			if in["decoy"] == true && decoyUsed > 0 {
+				panic("verif: the hasher used a leaf through something other than MarshalBinary")
+			}
 		})
 		return M{"ok": err == nil && p == "", "root": vInts(root), "bottomup": vInts(bu), "size": h.Size(), "intact": leavesIntact(ls, n), "panic": p}
+	case "merkle.Par": // Hashers created separately (one per goroutine, as an API with a constructor suggests) and used at the same time
+		h := hashByName(in["hash"].(string))
+		g := vIntOf(in["g"])
+		want := make([][]byte, g)
+		for i := range want {
+			want[i] = bottomUp(h, nLeaves(3+17*i))
+		}
+		bad := ""
+		var mu sync.Mutex
+		p := vCatch(func() {
+			deadline := time.Now().Add(time.Duration(vIntOf(in["ms"])) * time.Millisecond)
+			for round := 0; round < 400 && bad == "" && (round < 6 || time.Now().Before(deadline)); round++ {
+				var wg sync.WaitGroup
+				start := make(chan struct{})
+				for i := 0; i < g; i++ {
+					wg.Add(1)
+					go func(i int) {
+						defer wg.Done()
+						defer func() {
+							if r := recover(); r != nil {
+								mu.Lock()
+								bad = fmt.Sprint("panic in a concurrent Hash: ", r)
+								mu.Unlock()
+							}
+						}()
+						hs := NewHasher(h)
+						<-start
+						for q := 0; q < 8; q++ {
+							ls := nLeaves(3 + 17*i)
+							root, err := hs.Hash(ls)
+							er := hs.EmptyRoot()
+							if err != nil || !bytes.Equal(root, want[i]) || !bytes.Equal(er, h.New().Sum(nil)) || !leavesIntact(ls, 3+17*i) {
+								mu.Lock()
+								bad = fmt.Sprintf("goroutine %d: root of %d leaves differs from the sequential answer", i, 3+17*i)
+								mu.Unlock()
+							}
+						}
+					}(i)
+				}
+				close(start)
+				wg.Wait()
+			}
+			if bad != "" {
+				panic("verif: " + bad)
+			}
+		})
+		return M{"ok": p == "", "panic": p}
 	case "merkle.Empty": // history on one Hasher: results handed out earlier may be modified by their owners
 		h := hashByName(in["hash"].(string))
 		want := h.New().Sum(nil)
@@ -319,7 +419,7 @@ func vRun(op string, in M) M {
 	panic("unknown op " + op)
 }
 
-func init() { vWBNames["merkle.lp2"] = true; vNoRepeat["merkle.Big"] = true }
+func init() { vWBNames["merkle.lp2"] = true; vNoRepeat["merkle.Big"] = true; vNoRepeat["merkle.Par"] = true }
 
 func TestVerifDriver(t *testing.T) {
 	vMain(vRun, func(do func(string, M)) {
@@ -332,6 +432,12 @@ func TestVerifDriver(t *testing.T) {
 		}
 		for _, b := range big {
 			do("merkle.Big", M{"n": b, "hash": []string{"sha256", "blake2b"}[b%2]})
+		}
+		for _, b := range []int{0, 1, 2, 3, 5, 64, 65, 300} {
+			do("merkle.Big", M{"n": b, "hash": []string{"sha256", "blake2b"}[b%2], "decoy": true})
+		}
+		for _, hn := range []string{"sha256", "blake2b", "sha512"} {
+			do("merkle.Par", M{"hash": hn, "g": 8, "ms": 300})
 		}
 		for k := 0; k < n; k++ {
 			// random leaf counts and contents (also empty and equal leaves) through the recording hash
